@@ -224,7 +224,7 @@ def run(tier):
     root = tempfile.mkdtemp(prefix="c18-", dir=b.root)
     pool = sl.Pool(v.seed)
     rng = random.Random(v.seed)
-    passes = [False] if tier == "quick" else [False, True]
+    passes = [False, True]
     traces, owners = [], []
     n_strace = 0
     for preexisting in passes:
@@ -232,7 +232,12 @@ def run(tier):
         exp = sl.cli_channel_run(b, R.data, sl.SCfg("p", [], {}), "file", "stdout", root, "exp")["out"]
         order = list(range(len(recs)))
         # strace a sample (quick) or everything (thorough, first pass)
-        if tier == "quick":
+        if tier == "quick" and preexisting:
+            # second pass of the quick tier: the combinations that must be rejected and name an output file, in a directory where that file
+            # (and a key file) already exist with contents
+            order = [i for i in order if recs[i]["rule"] == "reject" and "out" in recs[i]["on"]]
+            st = set()
+        elif tier == "quick":
             st = set(i for i in order if recs[i]["verdict"] == "accepted") | set(rng.sample(order, 700))
         else:
             st = set(order) if not preexisting else set()
@@ -242,7 +247,9 @@ def run(tier):
 
         # "piped stdin" also means `< file`: the combinations with stdin again, with stdin redirected from a regular file
         with_stdin = [i for i in order if "stdin" in recs[i]["on"]]
-        if tier == "quick":
+        if tier == "quick" and preexisting:
+            with_stdin = []
+        elif tier == "quick":
             with_stdin = [i for i in with_stdin if recs[i]["rule"] != "reject"] + rng.sample([i for i in with_stdin if recs[i]["rule"] == "reject"], 1200)
 
         def one_file(i):
